@@ -101,6 +101,8 @@ type HopSpec struct {
 	AliasTTL int `json:"alias_ttl,omitempty"`
 	// Extra perturbations that keep the reply genuine (e.g. NAT rewrote the quoted source)
 	Rewrite []simnet.Perturb `json:"rewrite,omitempty"`
+	// IPOptWords (6..15, IPv4): the reply's own IP header carries options and is that many words long; still genuine
+	IPOptWords int `json:"ip_opt_words,omitempty"`
 }
 
 type ByteMut struct {
@@ -153,6 +155,8 @@ type Scn struct {
 	CancelAtMs int               `json:"cancel_at_ms,omitempty"` // cancel the caller's context (icmp/sack take one)
 	EpsNs     int64              `json:"eps_ns,omitempty"`
 	NoOwnLoop bool               `json:"no_own_loop,omitempty"`
+	// SilentElsewhere: a probe whose TTL has no entry in Hops is not answered either (a TTL the run was never asked to probe)
+	SilentElsewhere bool `json:"silent_elsewhere,omitempty"`
 	MaxSteps       int    `json:"max_steps,omitempty"` // scheduler step horizon (0 = default 200000)
 	TargetOverride string `json:"target_override,omitempty"` // probe another address than the variant's default
 	ShareListener  int    `json:"share_listener,omitempty"`  // SACK: 1+index of the scenario whose listener (same address and port) this one connects to
@@ -406,6 +410,9 @@ func (s *Script) OnProbe(n *simnet.Net, sink *simnet.Sink, p *refcodec.Packet, r
 	target := s.TargetOf(sc, p)
 	var out []simnet.Reply
 	hs, has := sc.Hops[t]
+	if !has && sc.SilentElsewhere {
+		hs, has = HopSpec{Silent: true}, true
+	}
 	atDest := (sc.Dest > 0 && t >= sc.Dest) || (has && hs.AtTarget)
 	initSeq := p.Seq - uint32(t) // sack: localInitSeq
 	s.initSeq[sink.ID] = initSeq
@@ -451,6 +458,11 @@ func (s *Script) OnProbe(n *simnet.Net, sink *simnet.Sink, p *refcodec.Packet, r
 		}
 		if b, err := simnet.Build(form, p, from, ctx); err == nil {
 			genuine := hs.Perturb == nil && hs.Truncate == 0 && len(hs.Mutate) == 0 && !strings.HasPrefix(form, "v6mapped:")
+			if hs.IPOptWords != 0 {
+				if b, err = simnet.WithIPOptions(b, hs.IPOptWords); err != nil {
+					panic(fmt.Sprintf("ip options on %s: %v", form, err))
+				}
+			}
 			for _, rw := range hs.Rewrite {
 				b, err = rw.Apply(b)
 				if err != nil {
@@ -520,7 +532,7 @@ func (s *Script) OnProbe(n *simnet.Net, sink *simnet.Sink, p *refcodec.Packet, r
 				}
 			}
 			c2 := ctx
-			if vi.Kind == "sack" && strings.HasPrefix(in.Form, "sack") {
+			if vi.Kind == "sack" && strings.HasPrefix(strings.TrimPrefix(in.Form, "v6mapped:"), "sack") {
 				c2.SackHeld = []uint8{uint8(in.AnswerTTL)}
 			}
 			var err error
